@@ -14,6 +14,8 @@ for d in sorted(glob.glob('/verif/seeded/%s/' % pat)):
     if not checks:
         continue
     out = subprocess.run(['/verif/tools/mut.sh', os.path.join(d, 'patch.diff')] + checks, capture_output=True, text=True).stdout
+    if 'patch does not apply' in out or 'repo dirty' in out:
+        print(m['id'], 'PATCH DOES NOT APPLY / repo dirty:', out.strip()[:200], flush=True)
     det = {}
     for l in out.splitlines():
         mm = re.match(r'\S+ (C\d+) violations=(\d+) inconclusive=(\d+)\s*(.*)', l)
@@ -25,5 +27,6 @@ for d in sorted(glob.glob('/verif/seeded/%s/' % pat)):
     json.dump(m, open(mp, 'w'), indent=1)
     rows.append((m['id'], m.get('breaks'), m['detected_by']))
     print(m['id'], 'breaks', m.get('breaks'), 'detected_by', m['detected_by'], flush=True)
-missed = [r for r in rows if not r[2]]
-print('TOTAL', len(rows), 'MISSED', len(missed), [r[0] for r in missed])
+notclaimed = [os.path.basename(os.path.dirname(d)) for d in glob.glob('/verif/seeded/%s/' % pat) if os.path.exists(d + 'meta.json') and json.load(open(d + 'meta.json')).get('not_claimed')]
+missed = [r for r in rows if not r[2] and r[0] not in notclaimed]
+print('TOTAL', len(rows), 'MISSED', len(missed), [r[0] for r in missed], 'NOT-CLAIMED', notclaimed)
